@@ -102,3 +102,6 @@ reg("C01", "extra", fn="check_charsetpad")
 reg("C16", "arm")
 reg("C16", "undo", fn="check_iddata")
 reg("C12", "extra", fn="check_crossmemb")
+reg("C07", "extra", fn="check_lenarms", configs=("default", "utf16"))
+reg("C07", "extra", fn="check_asciibitmap")
+reg("C12", "extra", fn="check_charsetpad")
